@@ -202,7 +202,9 @@ def run_sched(case):
         version = {c: 0 for c in range(ncopies)}
 
         def isolated(addr, kind, c):
-            key = (addr, kind, c, version[c])
+            # same simulated date: text such as "8-8" is legitimately read
+            # as a date of the *current* year (Excel does the same)
+            key = (addr, kind, c, version[c], amb.clock.t // 86400)
             if key not in iso:
                 m = worlds.world_model(world, cells=inputs[c], stale=True)
                 e = make_evaluator(m, kind, UserFuncs(None))
